@@ -19,7 +19,7 @@ Args parse_args(int argc, char **argv) {
         else if (k == "--shard") { std::string v = val(); sscanf(v.c_str(), "%d/%d", &a.shard, &a.nshards); }
         else if (k == "--tier") a.tier = val();
         else if (k == "--seed") a.seed = strtoull(val().c_str(), 0, 10);
-        else if (k == "--replay") a.replay = val();
+        else if (k == "--replay") { a.replay = val(); FILE *f = fopen(a.replay.c_str(), "rb"); if (!f) { printf("REPLAY-FAIL sig=replay_file_missing\n%s cannot be read\n", a.replay.c_str()); exit(2); } fclose(f); }
         else if (k == "--mode") a.mode = val();
         else if (k == "--known") {
             std::string f = read_file(val());
